@@ -12,7 +12,7 @@ demo=$(git status --porcelain | awk '/seed_demo_test.go/{print $2}' | head -1)
 [ -n "$demo" ] || { echo "no demo"; exit 2; }
 pkg="./$(dirname "$demo")/"
 mkdir -p "$dst"
-git diff -- . ':!patch.diff' > /tmp/seed/$id.cur.diff
+
 if ! diff -q <(git diff) patch.diff >/dev/null; then echo "note: patch.diff differs from working-tree diff; using working-tree diff of tracked files"; fi
 git diff > "$dst/patch.diff"
 cp "$demo" "$dst/$(echo "$demo" | tr '/' '_')"
